@@ -115,6 +115,10 @@ def gen_var(rng, name, dt, node_in_force, feat=None):
         v["factor"] = [n, d]
         v["unit"] = rng.choice(["mm", "rpm", "deg C", "%"])
         v["desc"] = text(rng, rng.randrange(100), special=False)
+    elif rng.random() < 0.15:
+        v["unit"] = rng.choice(["%", "deg C", "V"])
+        if rng.random() < 0.5:
+            v["desc"] = text(rng, rng.randrange(100), special=False)
     return v
 
 
@@ -231,7 +235,9 @@ def render_var(lines, section, v, otype=None, extra=None):
         lines.append(f"PDOMapping={v['pdo']}")
     if v["factor"] != [1, 1]:
         lines.append(f"Factor={v['factor'][0] / v['factor'][1]!r}")
+    if v["factor"] != [1, 1] or v["unit"]:
         lines.append(f"Unit={v['unit']}")
+    if v["factor"] != [1, 1] or v["desc"]:
         lines.append(f"Description={v['desc']}")
     for k2, x in (extra or {}).items():
         lines.append(f"{k2}={x}")
@@ -493,7 +499,7 @@ def build_code_od(rng, nobj=10):
     def mkvar(name, idx, sub, dt):
         v = ODVariable(name, idx, sub)
         v.data_type = dt
-        v.access_type = rng.choice(["rw", "ro", "wo", "const"])
+        v.access_type = rng.choice(["rw", "ro", "wo", "const", "rwr", "rww"])
         v.pdo_mappable = rng.random() < 0.5
         if rng.random() < 0.8:
             v.default = typed_value(rng, dt)
@@ -513,6 +519,11 @@ def build_code_od(rng, nobj=10):
             v.factor = n / d
             v.unit = rng.choice(["mm", "rpm", "deg C", "%"])
             v.description = text(rng, rng.randrange(100), special=False)
+        elif rng.random() < 0.15:
+            # a unit / a description without a scaling factor
+            v.unit = rng.choice(["%", "deg C", "V"])
+            if rng.random() < 0.5:
+                v.description = text(rng, rng.randrange(100), special=False)
         return v
     while len(used) < nobj:
         idx = rng.choice([rng.randrange(0x1002, 0x2000), rng.randrange(0x2000, 0x6000), rng.randrange(0x6000, 0xA000),
